@@ -86,6 +86,37 @@ pub fn triggers() -> Vec<String> {
     ] {
         v.push(p.to_string());
     }
+    // a possibly-empty term before a start anchor (the line-start fast path under flag m)
+    for x in ["\\s", "\\n", ".", "[^a]", "a", "(?:\\n|a)"] {
+        for q in ["*", "?", "*?", "{0,2}"] {
+            for z in ["b", "a", ".", "$", "(b)"] {
+                v.push(format!("{}{}^{}", x, q, z));
+            }
+        }
+    }
+    // terms that compile to nothing in front of a repeat and its follower
+    for pre in ["(?:)(?:)", "(?:)", "a{0}b{0}", "^*$*", "(?:){2}a{0}"] {
+        for core in ["ba*a", "a*a", "b\\d+1", "[ab]*b", "a+ab", "a?a"] {
+            v.push(format!("{}{}", pre, core));
+        }
+    }
+    // ^ followed by a variable-length term, a mandatory alternation and a class
+    for lead in ["^a*", "^a?", "^(a|b)", "^[ab]+"] {
+        for mid in ["(b|c)", "(?:bc|de)", "c*", "(?:b|1)"] {
+            for tail in ["[de]", ".", "\\d", "[ab]"] {
+                v.push(format!("{}{}{}", lead, mid, tail));
+            }
+        }
+    }
+    // a block before a category that contains part of it (sets far beyond Latin-1)
+    for x in ["\\p{IsThai}", "\\p{IsHebrew}", "\\p{IsGreek}", "[\u{e01}-\u{e5b}]"] {
+        for q in ["+", "*", "{1,2}"] {
+            for y in ["\\d", "\\p{L}", "\\w", "\\p{Lo}", "\\p{Nd}"] {
+                v.push(format!("{}{}{}", x, q, y));
+                v.push(format!("^{}{}{}$", x, q, y));
+            }
+        }
+    }
     for n in 1..=5 {
         v.push("a".repeat(n));
         v.push(format!("(?:a|b){{{}}}", n));
@@ -166,7 +197,7 @@ fn space_for(tier: Tier) -> (Space, usize) {
             s.ast_range("CL", 4, 4, 64, 2);
             s.ast_range("LP", 1, 4, 32, 5);
             s.ast_range("ALT", 1, 3, 32, 4);
-            s.ast_range("FX", 1, 4, 32, 6).ast_range("FXA", 1, 4, 32, 6).ast_range("CLN", 1, 3, 32, 3);
+            s.ast_range("FX", 1, 4, 32, 6).ast_range("FXA", 1, 4, 32, 6).ast_range("CLN", 1, 3, 32, 3).ast_range("QNA", 1, 4, 16, 11).ast_range("CLG", 1, 5, 32, 3).ast_range("OPTG", 1, 3, 32, 5);
             s.list("triggers", t, 16);
             s.list("case triggers", case_triggers(false).len() as u64, 16);
             (s, 3)
@@ -175,7 +206,7 @@ fn space_for(tier: Tier) -> (Space, usize) {
             s.ast("K", 5, 64).ast("CL", 4, 64).ast("Q", 3, 64).ast("AN", 4, 64).ast("G", 4, 64);
             s.ast_range("LP", 1, 4, 32, 6);
             s.ast_range("ALT", 1, 4, 32, 4);
-            s.ast_range("FX", 1, 4, 32, 6).ast_range("FXA", 1, 4, 32, 6).ast_range("CLN", 1, 4, 32, 4);
+            s.ast_range("FX", 1, 4, 32, 6).ast_range("FXA", 1, 4, 32, 6).ast_range("CLN", 1, 4, 32, 4).ast_range("QNA", 1, 4, 16, 12).ast_range("CLG", 1, 5, 32, 4).ast_range("OPTG", 1, 5, 32, 4);
             s.ast_range("K", 6, 6, 512, 203).ast_range("CL", 5, 5, 128, 203).ast_range("AN", 5, 5, 128, 204);
             s.ast_range("KL", 1, 3, 16, 208).ast_range("KL", 4, 4, 32, 206);
             s.list("triggers", t, 16);
@@ -315,7 +346,7 @@ impl Check for C08 {
             let inputs = all_strings(&['a', 'b', 'A', '1', '\n'], maxlen.min(3));
             let mut extra = inputs.clone();
             extra.extend(
-                ["aaaa", "abab", "aaab", "ababb", "aabb1", "1111", "\n\na\n", "bbbbb", "z", "zz", "zzz", "zzy", "\u{e9}\u{e9}", "xyz", "bcc", "bb", "bbb", "cb", "abcab", "aabb", "aAbB", "xx-yy."]
+                ["aaaa", "abab", "aaab", "ababb", "aabb1", "1111", "\n\na\n", "bbbbb", "z", "zz", "zzz", "zzy", "\u{e9}\u{e9}", "xyz", "bcc", "bb", "bbb", "cb", "abcab", "aabb", "aAbB", "xx-yy.", "\u{e51}\u{e52}", "\u{5d0}\u{5d1}", "\u{e01}\u{e51}", "\u{3b1}\u{3b2}", "a\n\nb", "b21", "abd", "bcd", "ade"]
                     .iter()
                     .map(|s| s.to_string()),
             );
